@@ -54,6 +54,7 @@ type LoopSpec struct {
 	Sig        string
 	Invariants []Clause
 	Decreases  []Clause
+	Exits      []Clause // obligations on every edge that leaves the loop for the code behind it
 	Modifies   []string
 	HasMod     bool
 }
@@ -621,6 +622,8 @@ func parseSpecFile(path string, pkgPath string, raw bool) (*SpecFile, error) {
 				ls.Invariants = append(ls.Invariants, parseClause(r3, path, nums[i]))
 			case "decreases":
 				ls.Decreases = append(ls.Decreases, parseClause(r3, path, nums[i]))
+			case "exit":
+				ls.Exits = append(ls.Exits, parseClause(r3, path, nums[i]))
 			case "modifies":
 				ls.HasMod = true
 				if r3 != "nothing" {
